@@ -34,6 +34,8 @@ def main():
         if args and m["prop"] not in args and m["name"] not in args:
             continue
         name = "%s-%s" % (m["prop"], m["name"])
+        if m.get("tier") == "thorough" and "--with-thorough" not in sys.argv and not args:
+            continue
         try:
             ok_apply = True
             for (fn, old, new) in m["edits"]:
@@ -57,7 +59,7 @@ def main():
             checks = m.get("checks", [m["prop"]])
             caught = []
             for pid in checks:
-                r = subprocess.run([os.path.join(ROOT, "check"), pid, "--tier", "quick"], cwd=ROOT, capture_output=True, text=True,
+                r = subprocess.run([os.path.join(ROOT, "check"), pid, "--tier", m.get("tier", "quick")], cwd=ROOT, capture_output=True, text=True,
                                    env=dict(os.environ, VERIF_REPLAY_DIR="/tmp/scratch/mutant-replays"))
                 if r.returncode == 1 and "VIOLATION property=" in r.stdout:
                     caught.append(pid)
